@@ -497,7 +497,8 @@ fn is_address_probe(ins: &Instruction) -> bool {
 fn reports(prop: &str, fam: Family, ins: &Instruction, class: Class) -> bool {
     use Class::*;
     match prop {
-        "C01" => matches!(fam, Family::Data | Family::Cpuid) && matches!(class, Gpr | Xmm | Mem | Seg | Rip),
+        // (FaultState: after a refused store, memory must be what the CPU left - untouched)
+        "C01" => matches!(fam, Family::Data | Family::Cpuid) && matches!(class, Gpr | Xmm | Mem | Seg | Rip | FaultState),
         "C02" => matches!(fam, Family::Data) && class == Flags,
         "C03" => match fam {
             // a jump that fails where the CPU completes it did not transfer control as the CPU does
